@@ -34,7 +34,7 @@ def log(msg: str) -> None:
 
 # --------------------------------------------------------------------------- schedule sampling
 
-CWD_KINDS = ["proj", "work", "S", "src", "srcsub", "src_testdir", "out", "elsewhere", "ro"]
+CWD_KINDS = ["proj", "work", "S", "src", "srcsub", "src_testdir", "out", "elsewhere", "ro", "decoy_pkg", "decoy_file"]
 INVOCATIONS = ["console", "dash_m", "pythonpath0", "pythonpath1", "pythonpath2", "pythonpath3"]
 SRC_SPELLINGS = ["rel", "trail", "dot", "detour", "symlink", "reltrail"]
 OUT_SPELLINGS = ["rel", "trail", "dot", "detour", "symlink", "reltrail", "nested"]
@@ -57,6 +57,9 @@ def sample_dim(r, dim: str):  # noqa: ANN001, ANN201
     if dim == "out_spelling":
         return r.choice(OUT_SPELLINGS)
     if dim == "env":
+        if r.random() < 0.25:
+            # the most hostile legal text environment: C locale that is not coerced (LC_ALL set) and UTF-8 mode off
+            return {"LC_ALL": r.choice(["C", "POSIX"]), "PYTHONUTF8": "0", "umask": r.choice([0o022, 0o077])}
         env = {
             "LANG": r.choice(["C", "POSIX", "C.UTF-8"]),
             "umask": r.choice([0o022, 0o077, 0o027]),
